@@ -320,6 +320,40 @@ func genTruncLast(r *vu.Rng) []byte {
 	return b
 }
 
+// genGuardEdge: pressure on every bounds guard of the reader: the message cut one byte before / at /
+// one byte after a field boundary (length octets, RDLENGTH, header fields), pointers to the last
+// byte and one past the end, and name reads at offsets len-1, len, len+1.
+func genGuardEdge(r *vu.Rng) []string {
+	b := append([]byte{}, genLenMessage(r)...)
+	if r.Bool() {
+		b = append([]byte{}, packValid(r)...)
+	}
+	offs := append(lengthOctets(b), 0, 2, 4, 6, 8, 10, 12)
+	cut := offs[r.Intn(len(offs))] + r.Intn(4) - 1
+	switch r.Intn(4) {
+	case 0: // pointer to the last byte / just past the end, somewhere after the header
+		if len(b) > 14 {
+			i := 12 + r.Intn(len(b)-13)
+			t := len(b) - 1 + r.Intn(2)
+			b[i], b[i+1] = 0xC0|byte(t>>8), byte(t)
+		}
+	case 1, 2:
+		if cut >= 0 && cut <= len(b) {
+			b = b[:cut]
+		}
+	default: // a lone pointer prefix as the very last byte
+		b = append(b, 0xC0|byte(r.Intn(64)))
+	}
+	h := vu.Hex(b)
+	ops := msgOps(b, r)
+	for _, off := range []int{len(b) - 2, len(b) - 1, len(b), len(b) + 1} {
+		if off >= 0 {
+			ops = append(ops, fmt.Sprintf("uname %s %d", h, off), fmt.Sprintf("sname %s %d", h, off))
+		}
+	}
+	return append(ops, "walk "+h+" hkhkhkhkhk", "walk "+h+" khkhkhkhkh")
+}
+
 func msgOps(b []byte, r *vu.Rng) []string {
 	h := vu.Hex(b)
 	ops := []string{"unpack " + h, "skipall " + h}
@@ -370,6 +404,8 @@ func gen(r *vu.Rng, i int) []string {
 	case k < 62:
 		return msgOps(genLenPerturbed(r), r)
 	case k < 68:
+		return genGuardEdge(r)
+	case k < 80:
 		b := genTruncLast(r)
 		h := vu.Hex(b)
 		return append(msgOps(b, r), "walk "+h+" kkkkkkkkkkkk", "walk "+h+" ssssssssssss", "walk "+h+" hhhhhhhhhhhh")
